@@ -25,13 +25,14 @@ Proof.
 Qed.
 Print Assumptions C05_failure_removed_serial.
 
-(* containment: the actions of a task start only after EVERY task it declares as task_dep (explicit,
-   implicit through targets), calc_dep or setup-task got a final report, and that report is success
-   or up-to-date *)
+(* containment: the actions of a task start only after EVERY task it effectively depends on -- what it
+   declares as task_dep (explicit, implicit through targets), calc_dep or setup-task, AND everything
+   returned by its calc_dep tasks (transitively) [eff_dep, Proofs/RunnerP.v] -- got a final report, and
+   that report is success or up-to-date *)
 Theorem C05_contained_serial :
   forall tasks wake_rank calc_rank continue_ always fuel selection pre t post x,
     fst (run_serial tasks wake_rank calc_rank continue_ always fuel selection) = pre ++ EExecute t :: post ->
-    In x (static_deps tasks t) -> good_in pre x.
+    eff_dep tasks t x -> good_in pre x.
 Proof.
   intros tasks wake_rank calc_rank continue_ always fuel selection pre t post x E Hx.
   exact (cordered_split tasks _ (serial_contained tasks wake_rank calc_rank continue_ always fuel selection) pre t post E x Hx).
@@ -43,7 +44,7 @@ Print Assumptions C05_contained_serial.
 Theorem C05_failed_dependency_never_runs_serial :
   forall tasks wake_rank calc_rank continue_ always fuel selection t x e,
     let tr := fst (run_serial tasks wake_rank calc_rank continue_ always fuel selection) in
-    In x (static_deps tasks t) -> In e tr -> is_final_ev x e = true -> is_good_ev e = false ->
+    eff_dep tasks t x -> In e tr -> is_final_ev x e = true -> is_good_ev e = false ->
     ~ In (EExecute t) tr.
 Proof. exact serial_bad_dep_never_runs. Qed.
 Print Assumptions C05_failed_dependency_never_runs_serial.
@@ -71,7 +72,7 @@ Proof. exists [EGetStatus 0; EExecute 0; ERemove 0]. vm_compute. reflexivity. Qe
 Theorem C05_contained_parallel :
   forall tasks wake_rank calc_rank continue_ always proc fuel nprocs sched selection pre t w post x,
     fst (run_parallel tasks wake_rank calc_rank continue_ always proc fuel nprocs sched selection) = pre ++ PStart t w :: post ->
-    In x (static_deps tasks t) -> pgood pre x.
+    eff_dep tasks t x -> pgood pre x.
 Proof.
   intros tasks wake_rank calc_rank continue_ always proc fuel nprocs sched selection pre t w post x E Hx.
   exact (pcordered_split tasks _ (parallel_contained tasks wake_rank calc_rank continue_ always proc fuel nprocs sched selection) pre t w post E x Hx).
@@ -81,7 +82,7 @@ Print Assumptions C05_contained_parallel.
 Theorem C05_failed_dependency_never_runs_parallel :
   forall tasks wake_rank calc_rank continue_ always proc fuel nprocs sched selection t w x e,
     let log := fst (run_parallel tasks wake_rank calc_rank continue_ always proc fuel nprocs sched selection) in
-    In x (static_deps tasks t) -> In (PE e) log -> is_final_ev x e = true -> is_good_ev e = false ->
+    eff_dep tasks t x -> In (PE e) log -> is_final_ev x e = true -> is_good_ev e = false ->
     ~ In (PStart t w) log.
 Proof. exact parallel_bad_dep_never_runs. Qed.
 Print Assumptions C05_failed_dependency_never_runs_parallel.
@@ -93,8 +94,5 @@ Theorem C05_failure_removed_parallel :
 Proof. exact parallel_failure_removed. Qed.
 Print Assumptions C05_failure_removed_parallel.
 
-(* NOT PROVED here: dependencies
-   that only exist through calc_dep results are covered at the state level (deps_recd in
-   Proofs/DispatchInv.v: every dependency of the node, dynamic ones included, is recorded before the
-   hand-over) but the trace-level statements above speak of the declared ones; that NOTHING reaches the
+(* NOT PROVED here: that NOTHING reaches the
    DB for a failed task is C07's refinement applied to the ERemove/ESave events above. *)
